@@ -150,6 +150,13 @@ void hazard_pointer_scan(hazard_pointer_thread_record_t* hptr) {
 
   qsort(hptr->plist, index, sizeof(*hptr->plist), &hazard_pointer_compare);
 
+  // a reclamation callback may retire nodes itself and so run a nested scan on
+  // this record: the snapshot must be private to this invocation
+  hazard_node_t** const snapshot = hptr->plist;
+  const size_t snapshot_size = hptr->plist_size;
+  hptr->plist = NULL;
+  hptr->plist_size = 0;
+
   hazard_node_t* node = hptr->retired_list;
   hptr->retired_list = NULL;
   hptr->retired_count = 0;
@@ -157,7 +164,7 @@ void hazard_pointer_scan(hazard_pointer_thread_record_t* hptr) {
   while (node) {
     hazard_node_t* const next = node->next;
 
-    const int is_hazardous = binary_search((void**)hptr->plist, index, node);
+    const int is_hazardous = binary_search((void**)snapshot, index, node);
 
     if (is_hazardous) {
       node->next = hptr->retired_list;
@@ -168,5 +175,14 @@ void hazard_pointer_scan(hazard_pointer_thread_record_t* hptr) {
       node->gc_function(node->gc_data, node);
     }
     node = next;
+  }
+
+  // hand the array back for the next scan, unless a nested scan allocated its
+  // own in the meantime
+  if (hptr->plist) {
+    free(snapshot);
+  } else {
+    hptr->plist = snapshot;
+    hptr->plist_size = snapshot_size;
   }
 }
